@@ -167,7 +167,8 @@ def run_count_oracle(outcome, tier, seed):
                         reqs.append({"id": len(reqs), "to": to, "calls": [c]})
     # YAML streams with documents that have no node at all (an empty document is a document: null), as text
     for text in (b"---\n---\n", b"---\n# nothing\n", b"a: 1\n---\n", b"---\n...\n---\n1\n", b"---\n---\n---\n", b"a: 1\n---\n---\nb: 2\n",
-                 b"--- ~\n---\n--- null\n", b"# head\n---\n\n---\n- x\n...\n---\n"):
+                 b"--- ~\n---\n--- null\n", b"# head\n---\n\n---\n- x\n...\n---\n", b"# c\ra: 1\r---\rb: 2\r",
+                 "# c\x85a: 1\x85---\x85b: 2\x85".encode(), "# c\u2028a: 1\u2028---\u2028b: 2\u2029".encode(), b"# c\r\na: 1\r\n--- 2\r\n"):
         vals = gen.read_documents(text, "yaml")
         for to in STREAMING:
             for mode, sched in (("slice", None), ("reader", {"kind": "full"}), ("reader", {"kind": "fixed", "n": 1}), ("reader", corpus.random_sched(rng))):
@@ -251,6 +252,28 @@ def run_cli_oracle(outcome, tier, seed):
         if whole.stdout != b"".join(p.stdout for p in parts):
             outcome.oracle_failures.append({"what": "xt given several files does not print the concatenation of the per-file translations",
                                             "argv": ["-t", to] + files, "stdout_hex": whole.stdout.hex()[:1000]})
+    # documents counted by an independent reader, file by file (a file whose translation loses documents loses them alone
+    # and in company alike): zero-length files of every format (TOML: one empty table; the others: no document), YAML with
+    # the line breaks only YAML knows, MessagePack documents that are single bytes
+    fixed = [("a.toml", b"a = 1\n"), ("empty.toml", b""), ("b.json", b'{"b":2}'), ("empty.json", b""), ("empty.yaml", b""), ("empty.msgpack", b""),
+             ("cr.yaml", b"# c\ra: 1\r---\rb: 2\r"), ("nel.yaml", "# c\x85a: 1\x85---\x85b: 2\x85".encode()),
+             ("ls.yaml", "# c\u2028- 1\u2028---\u2028- 2\u2028".encode()), ("zeros.msgpack", b"\x80\x00\x00"), ("nils.msgpack", b"\x91\x01\xc0\xc2"),
+             ("ws.json", b"\n\n  [1]\n\n\n{}\n 3 \n"), ("dashes.yaml", b"---\n---\na: 1\n---\n")]
+    counts = {}
+    for name, data in fixed:
+        open(os.path.join(d, name), "wb").write(data)
+        ext1 = name.rsplit(".", 1)[1]
+        counts[name] = 1 if ext1 == "toml" else len(gen.read_documents(data, ext1))     # a TOML file is one table, even when empty
+    orders = [[n for n, _ in fixed], ["a.toml", "empty.toml", "b.json"], ["empty.toml"], ["cr.yaml", "a.toml"], ["zeros.msgpack"], ["dashes.yaml", "empty.toml", "nel.yaml"]]
+    for names in orders:
+        r = subprocess.run([common.XT_DEBUG, "-t", "json"] + names, cwd=d, stdout=subprocess.PIPE, stderr=subprocess.PIPE, timeout=60)
+        want = sum(counts[n] for n in names)
+        checked += 1
+        if r.returncode != 0 or r.stdout.count(b"\n") != want:
+            outcome.oracle_failures.append({"what": "files holding %d documents in all (counted by an independent reader: %s) come out as %d JSON lines, "
+                                                    "exit status %d" % (want, {n: counts[n] for n in names}, r.stdout.count(b"\n"), r.returncode),
+                                            "argv": ["-t", "json"] + names, "files_hex": {n: dict(fixed)[n].hex() for n in names},
+                                            "stdout": r.stdout[:400].decode("utf-8", "replace"), "stderr": r.stderr[:300].decode("utf-8", "replace")})
     shutil.rmtree(d, ignore_errors=True)
     outcome.evaluations += checked
     outcome.distinct_nontrivial += checked
